@@ -11,7 +11,7 @@
 (***************************************************************************)
 EXTENDS Naturals, FiniteSets, TLC
 CONSTANTS Opts
-Vals == {"absent", "v1", "v2"}
+Vals == {"absent", "v1", "v2", "vEmpty"}    \* vEmpty: the option is given an empty / falsy value (still "given")
 FileKinds == {"none", "ok", "invalidJson", "topLevelList", "topLevelScalar", "wrongValueType", "missingExplicit"}
 
 VARIABLES cli, file, fileKind, eff, message, initOk, done
